@@ -118,6 +118,37 @@ def validate(prop, propmod, analysis):
             if len(hits) < len(base_hits):
                 errors.append(f'equivalence transform "{name}": {len(base_hits) - len(hits)} known finding(s) no longer matched')
         equiv.append({'transform': name, 'result': res, 'instances': len(ctx.instances)})
+    # ---- refactoring corpus: independent behaviour-preserving refactorings kept under /verif/refactorings ----------
+    rdir = os.path.join(VERIF, 'refactorings')
+    if os.path.isdir(rdir):
+        for name in sorted(os.listdir(rdir)):
+            patch_p = os.path.join(rdir, name, 'patch.diff')
+            if not os.path.exists(patch_p):
+                continue
+            tmp = _scratch_tree()
+            try:
+                if not _apply_patch(tmp, open(patch_p).read()):
+                    equiv.append({'transform': f'refactoring {name}', 'result': 'skipped: does not apply to the current tree'})
+                    continue
+                an = report.Analysis(root=tmp)
+                code, ctx, new, hits = _run(propmod, an)
+            except AnalysisError as exc:
+                errors.append(f'refactoring {name}: analysis failed: {exc}')
+                continue
+            finally:
+                shutil.rmtree(tmp, ignore_errors=True)
+            res = 'stable'
+            fresh = [i for i in new if i.key(prop) not in {b.key(prop) for b in base_new}]
+            if fresh:
+                res = f'FALSE ALARM: {fresh[0].rule} [{fresh[0].construct}]'
+                errors.append(f'refactoring {name} (behaviour-preserving) is reported: {fresh[0].rule} [{fresh[0].construct}] {fresh[0].why[:120]}')
+            elif ctx.errors and not base_ctx.errors:
+                res = f'ANALYSIS ERROR: {ctx.errors[0][:100]}'
+                errors.append(f'refactoring {name} (behaviour-preserving) makes the analysis give up: {ctx.errors[0][:160]}')
+            elif len(hits) < len(base_hits):
+                res = f'known findings matched {len(hits)} vs {len(base_hits)}'
+                errors.append(f'refactoring {name}: {len(base_hits) - len(hits)} known finding(s) no longer matched')
+            equiv.append({'transform': f'refactoring {name}', 'result': res, 'instances': len(ctx.instances)})
     # ---- sensitivity corpus -------------------------------------------------------------
     kills = []
     variants = seed_variants(prop) + revert_variants(prop)
